@@ -2,13 +2,41 @@
   C03/Theorems — the ledger for property C03 (every theorem here is audited).
 -/
 import OttoVerif.C03.Spec
+import OttoVerif.C03.Lemmas
 namespace OttoVerif.C03.Thm
-open OttoVerif.C03 OttoVerif.C03.Spec
+open OttoVerif.C03 OttoVerif.C03.Spec OttoVerif.C03.Lem
 
 /-- a binary-level loop stops without consuming anything at a token that is not one of its operators -/
 theorem binLoop_stop (ops : Tk → Option BinOp) (next : List Tok → R) (n : Nat) (e : E) (ts : List Tok)
     (h : ops (hd ts) = none) : binLoop ops next (n+1) e ts = some (e, ts) := by
   simp [binLoop, h]
+
+def eofTok : Tok := { k := .eof }
+
+/-- ROUND TRIP (operators): for every expression tree of the ES5 grammar built from literals, identifiers, `this` and ALL
+    binary (24), unary (9), postfix (2), conditional, assignment (13) and comma operators — at any depth, in any
+    combination — that is outside the deviation region `relational_chain`, the transcription of otto's parser applied to
+    the token string the grammar derives for the tree (minimal parentheses) returns exactly that tree and stops at EOF.
+    This IS operator precedence and associativity for every operator pair.
+    Full statement (member access, calls and `new` included) = `parse_print`, below, when present. -/
+theorem parse_print_partial (e : E) (hw : wf e = true) (hr : relChain e = false) (hn : noLHS e = true) :
+    ∃ n0, ∀ n, n0 ≤ n → parseExpression n true (print e ++ [eofTok]) = some (e, [eofTok]) := by
+  have rt := (main1 e hw hr hn).1 0 (by omega) (by omega) [eofTok] (show stopB 0 .eof false = true by decide)
+  simpa [Ev, parseAt_0, pr_bare (Nat.zero_le 15) (Nat.zero_le _), print] using rt
+
+/-- The same at every grammar position `lvl` and followed by ANY token string `rest` whose first token no level ≥ lvl
+    reacts to (e.g. `)`, `]`, `:`, `;`, EOF): the parser returns the tree and leaves `rest` untouched.  With `lvl > prec e`
+    the derivation contains the parentheses the grammar forces, so this is also "parenthesised sub-expressions are
+    transparent". -/
+theorem parse_print_at (e : E) (hw : wf e = true) (hr : relChain e = false) (hn : noLHS e = true)
+    (lvl : Nat) (h15 : lvl ≤ 15) (h2 : lvl ≠ 2) (rest : List Tok) (hs : stop lvl rest) :
+    ∃ n0, ∀ n, n0 ≤ n → parseAt lvl n (pr lvl true e ++ rest) = some (e, rest) :=
+  (main1 e hw hr hn).1 lvl h15 h2 rest hs
+
+/-- non-vacuity: a tree mixing every operator class satisfies the hypotheses -/
+example : let e : E := .asg .add (.id "a") (.cond (.bin .lor (.id "b") (.un .typeof (.post true (.id "c"))))
+                          (.bin .comma (.num "1") (.bin .lt (.id "d") (.bin .add (.num "2") (.bin .mul (.id "x") (.id "y"))))) (.un .neg (.id "z")))
+    wf e = true ∧ relChain e = false ∧ noLHS e = true := by decide
 
 /-- Kernel-checked witness of the deviation region `relational_chain`: `a < b < c` (ES5: `(a<b)<c`). -/
 def wRel : E := .bin .lt (.bin .lt (.id "a") (.id "b")) (.id "c")
